@@ -142,8 +142,8 @@ DECIDED = {
     "C20": ("Error::syntax reports offset == index and exactly the line/column of that offset for every input <= 6 and every index, "
             "without panicking in the snippet window arithmetic; Parser::error clamps to the document length for both readers "
             "(including a cursor inside the 64-byte padding); classify() yields NotFound only for the four lookup codes; the stream "
-            "deserializer and both lazy iterators latch after an error/end; the root Value parsed from the utf8_lossy copy of an input with two "
-            "invalid sequences: every end / error offset the DOM parser may report in the copy is mapped to the corresponding offset of the "
+            "deserializer and both lazy iterators latch after an error/end; the root Value parsed from the utf8_lossy copy of an input with one "
+            "invalid byte (two invalid sequences thorough): every end / error offset the DOM parser may report in the copy is mapped to the corresponding offset of the "
             "input, never beyond it (F16)."),
 }
 
